@@ -303,6 +303,66 @@ def k7(run, sm):
                             "the result does not scale, so which text fits into which shape (classes, element counts) changes with the scale setting" % (
                                 short(p), short(root), short(Program.callee_name(c))))
         run.ok("C11.K7", "%s: %d functions reachable, %d cell-unit uses" % (short(root), len(reach), hits), where(prog.bodies[root]), nontrivial=hits > 0)
+    # the bounds of a scaled value contain no absolute length either: a float constant added to (or used as) a
+    # coordinate does not scale, so the nesting test `can_fit` would depend on the scale
+    for t, root in roots:
+        if not root.endswith("Bounds>::bounds"):
+            continue
+        consts = []
+        seen_fn = set()
+
+        def only_consts(e):
+            e = strip(e)
+            if e[0] == "const":
+                return e[1] in ("float", "int")
+            if e[0] == "bin":
+                return only_consts(e[2]) and only_consts(e[3])
+            if e[0] in ("cast", "un"):
+                return only_consts(e[2])
+            return False
+
+        def nonzero_const(e):
+            e = strip(e)
+            if not only_consts(e):
+                return False
+            return not (e[0] == "const" and float(e[2]) == 0.0)
+
+        def walk(e, fn, depth):
+            e = strip(e)
+            if not isinstance(e, tuple) or not e or depth > 40:
+                return
+            if e[0] == "bin" and e[1] in ("Add", "Sub"):
+                for side in (e[2], e[3]):
+                    if nonzero_const(side):
+                        consts.append((fn, expr_str(e)[:100]))
+            if e[0] == "call":
+                if e[1].endswith("point::Point::new"):
+                    for a in e[2]:
+                        if nonzero_const(a):
+                            consts.append((fn, expr_str(e)[:100]))
+                callee = e[1]
+                if callee in prog.bodies and prog.bodies[callee].get("crate") == "svgbob" and callee not in seen_fn and not re.search(UNIT, callee):
+                    seen_fn.add(callee)
+                    for r in Expr(prog, callee).returns():
+                        walk(r, callee, depth + 1)
+            for x in e[1:]:
+                if isinstance(x, tuple):
+                    if x and isinstance(x[0], str):
+                        walk(x, fn, depth + 1)
+                    else:
+                        for y in x:
+                            if isinstance(y, tuple):
+                                walk(y if (y and isinstance(y[0], str)) else (y[1] if len(y) > 1 and isinstance(y[1], tuple) else ()), fn, depth + 1)
+
+        for r in Expr(prog, root).returns():
+            walk(r, root, 0)
+        if consts:
+            fn, ex_ = consts[0]
+            run.bad("C11.K7", "absolute-length-in-bounds/%s" % short(t), where(prog.bodies[fn]),
+                    "the bounds of the scaled %s contain the absolute length `%s` (in %s): it does not scale, so which text fits into which shape changes with the scale setting" % (
+                        short(t), ex_, short(fn)))
+        else:
+            run.ok("C11.K7", "bounds of %s are built from scaled fields only (no additive constant; %d helper bodies followed)" % (short(t), len(seen_fn)), where(prog.bodies[root]))
 
 
 def settings_scale(e):
